@@ -145,15 +145,12 @@ class Ref:
             return []
         self._emit_group(g)
         g.siblings = tuple(cids)
-        planned = 0
+        if len(cids) > 1 and sum(1 for c in cids if self._planned(c, ctx)) > 1:
+            raise Ambiguous(f"two planned callbacks in one {kind} group")
         results = []
         for cid in cids:
             rec = self._new_rec(cid, "val" if kind == "validators" else "act", ctx, state)
             g.calls.append(rec)
-            if self._planned(cid, ctx):
-                planned += 1
-                if planned > 1:
-                    raise Ambiguous(f"two planned callbacks in one {kind} group")
             self.stack.append(rec)
             try:
                 if kind == "validators":
@@ -391,7 +388,7 @@ class Ref:
         return None if first is SENT else first
 
     # -- public operations ----------------------------------------------------------
-    def _op(self, fn):
+    def _op(self, fn, discard=False):
         self.top = []
         self.stack = []
         try:
@@ -400,7 +397,7 @@ class Ref:
             raise
         except Exception as e:
             return Outcome("exc", e, self.top)
-        return Outcome("ok", r, self.top)
+        return Outcome("ok", None if discard else r, self.top)
 
     def construct(self):
         """Machine construction.  Sync engine: activates at once.  Async: only enqueues."""
@@ -412,14 +409,14 @@ class Ref:
                     return self._drain_nonrtc(self.queue.popleft()) if self.queue else None
                 return self._drain()
             return None
-        return self._op(fn)
+        return self._op(fn, discard=True)
 
     def activate(self):
         def fn():
             if not self.cfg.rtc:
                 return self._drain_nonrtc(self.queue.popleft()) if self.queue else None
             return self._drain()
-        return self._op(fn)
+        return self._op(fn, discard=True)
 
     def send(self, ev, vals=None, tag=None, args=(), kw=None):
         if vals is not None:
